@@ -10,7 +10,7 @@ open-ended loops (`while a != b` in `pi`, the range reductions) take fuel and re
 namespace Arp
 
 /-- generous fuel for the inner `sqrt`/`rem` loops -/
-def innerFuel : Nat := 4000000
+def innerFuel : Nat := 4611686018427387904   -- 2^62: a bound, never reached (C12.sqrt_terminates, C11.rem_fuel); the Rust loops are unbounded
 
 def Flt.sqrtM (x : Flt) : Option Flt := x.sqrtFuel innerFuel
 def Flt.remM (x y : Flt) : Option Flt := x.remFuel innerFuel y
